@@ -17,5 +17,8 @@ def run(c):
     # read earlier is read again as soon as it can be
     import obl_phonetic
     obl_phonetic.obl_userfiles(c, budget_s=600)
+    # ... and after an edit of that file picked up by update_engine, the entry in force (added, changed or deleted) is the one that decides
+    # what comes first, also for words whose list was memoised before the edit
+    A.obl_reload(c, ct, thorough=(c.tier == "thorough"), budget_s=900)
     c.outside("that edit_distance is the edit distance; the content of the dictionary; words longer than the bound; "
               "Rank numbers outside the producible domain (the comparator is not a total order there)")
